@@ -219,12 +219,12 @@ def gen_block(rng, small):
         mtags.append({"x": _x(), "pos": pos, "ext": ext, "units": units, "refs": refs,
                       "feats": gen_feats(rng, arrays), "unlink": False})
     return {"x": _x(), "groups": [{"x": _x()} for _ in range(rng.choice([0, 1, 2]))], "arrays": arrays,
-            "tags": tags, "mtags": mtags, "sources": gen_sources(rng, 1 if small else 3)}
+            "tags": tags, "mtags": mtags, "sources": gen_sources(rng, 2 if small else 3)}
 
 
 def gen_recipe(rng, small=False):
     return {"epoch0": False, "blocks": [gen_block(rng, small) for _ in range(1 if small else rng.choice([1, 2]))],
-            "sections": gen_sections(rng, 1 if small else 3)}
+            "sections": gen_sections(rng, 2 if small else 3)}
 
 
 # ---------------------------------------------------------------------------------------
@@ -1038,13 +1038,17 @@ def same(model, impl):
 
 def inj_kind(inj):
     if inj[0] in ("ent_del", "ent_empty"):
-        return "%s.%s.%s" % (inj[0], inj[1], inj[3])
-    if inj[0] in ("feat_del", "prop_del", "prop_empty"):
+        nested = (inj[1] == "source" and len(inj[2]) > 2) or (inj[1] == "section" and len(inj[2]) > 1)
+        return "%s.%s%s.%s" % (inj[0], inj[1], ".nested" if nested else "", inj[3])
+    if inj[0] in ("prop_del", "prop_empty"):
+        return "%s%s.%s" % (inj[0], ".nested" if len(inj[1]) > 1 else "", inj[-1])
+    if inj[0] == "feat_del":
         return "%s.%s" % (inj[0], inj[-1])
     return inj[0]
 
 
-def gen_cases(ctx, scope, n_plain, n_bases, singles_per_base, pairs_per_base, exhaustive_bases=0):
+def gen_cases(ctx, scope, n_plain, n_bases, singles_per_base, pairs_per_base, exhaustive_bases=0,
+              exhaustive_pairs=60):
     """[(label, recipe, [injections])]"""
     rng = ctx.rng
     cases = []
@@ -1075,8 +1079,8 @@ def gen_cases(ctx, scope, n_plain, n_bases, singles_per_base, pairs_per_base, ex
                 cases.append(("single", m, [inj]))
         if full:
             pairs = [(a, b) for i, a in enumerate(el) for b in el[i + 1:]]
-            if len(pairs) > pairs_per_base:
-                pairs = rng.sample(pairs, pairs_per_base)
+            if len(pairs) > exhaustive_pairs:
+                pairs = rng.sample(pairs, exhaustive_pairs)
         else:
             pairs = [tuple(rng.sample(el, 2)) for _ in range(pairs_per_base)] if len(el) >= 2 else []
         for a, b in pairs:
@@ -1106,8 +1110,8 @@ def run_case(ctx, recipe):
 
 def correspondence(ctx):
     corpus = [("corpus", c[1], []) for c in core.load_corpus(PROP) if c and c[0] == "recipe"]
-    cases = corpus + gen_cases(ctx, "all", ctx.budget(20, 150), ctx.budget(12, 60), ctx.budget(14, 40),
-                               ctx.budget(14, 60), exhaustive_bases=ctx.budget(0, 2))
+    cases = corpus + gen_cases(ctx, "all", ctx.budget(20, 100), ctx.budget(12, 40), ctx.budget(14, 30),
+                               ctx.budget(14, 40), exhaustive_bases=ctx.budget(0, 2), exhaustive_pairs=300)
     descs, impls = [], []
     dist = {"labels": {}, "injections": {}, "impl_errors": {}, "messages": {}}
     for label, recipe, injs in cases:
@@ -1140,7 +1144,7 @@ def correspondence(ctx):
             "rule": "generated well-formed files (1-2 blocks; arrays of rank 1-3 with range/sampled/set descriptor "
                     "mixes, unit choices from a 33-unit table; tags and multi-tags with 0-3 references, features; "
                     "source and section trees) + every injection kind at least once + sampled single and pairwise "
-                    "injections per base (thorough: all singles and up to 60 pairs on 2 bases); each case is a real "
+                    "injections per base (thorough: all singles and 300 sampled pairs on 2 bases); each case is a real "
                     "HDF5 file; model(description) and validate()['errors'] compared exactly (objects, order, "
                     "messages with arguments, or the exception class). non-trivial = at least one error reported "
                     "or an exception; distinct by canonical result",
@@ -1199,6 +1203,75 @@ def _fixed_cases(ctx):
     return out
 
 
+def _used_arrays(b):
+    used = set()
+    for t in b["tags"]:
+        used.update(t["refs"])
+        used.update(f["data"] for f in t["feats"])
+    for t in b["mtags"]:
+        used.update(t["refs"])
+        used.update(f["data"] for f in t["feats"])
+        used.add(t["pos"])
+        if t["ext"] is not None:
+            used.add(t["ext"])
+    return used
+
+
+def _shrink_candidates(r):
+    """smaller recipes: drop sections, sources, groups, tags, multi-tags, blocks, trailing unreferenced arrays"""
+    if r["sections"]:
+        c = copy.deepcopy(r)
+        c["sections"] = []
+        yield c
+    for bi in reversed(range(len(r["blocks"]))):
+        if len(r["blocks"]) > 1:
+            c = copy.deepcopy(r)
+            del c["blocks"][bi]
+            yield c
+        b = r["blocks"][bi]
+        for key in ("sources", "groups"):
+            if b[key]:
+                c = copy.deepcopy(r)
+                c["blocks"][bi][key] = []
+                yield c
+        for key in ("tags", "mtags"):
+            for ti in reversed(range(len(b[key]))):
+                c = copy.deepcopy(r)
+                del c["blocks"][bi][key][ti]
+                yield c
+                if b[key][ti]["feats"]:
+                    c = copy.deepcopy(r)
+                    c["blocks"][bi][key][ti]["feats"] = []
+                    yield c
+        if b["arrays"] and (len(b["arrays"]) - 1) not in _used_arrays(b):
+            c = copy.deepcopy(r)
+            c["blocks"][bi]["arrays"].pop()
+            yield c
+
+
+def shrink(ctx, failure, known, limit=120):
+    """greedy reduction of the recipe of a failure; keeps a recipe only if it still fails outside the known findings"""
+    recipe = failure.input[1]
+    best = failure
+    trials = 0
+    progress = True
+    while progress and trials < limit:
+        progress = False
+        for cand in _shrink_candidates(recipe):
+            trials += 1
+            if trials > limit:
+                break
+            try:
+                fails = [fl for fl in check_recipe(ctx, cand, failure.input[2] if len(failure.input) > 2 else [])
+                         if not any(matches_known(e, fl) for e in known)]
+            except Exception:
+                continue
+            if fails:
+                recipe, best, progress = cand, fails[0], True
+                break
+    return best
+
+
 def oracle(ctx, broken, hints):
     cases = []
     for h in hints[:40]:
@@ -1210,8 +1283,8 @@ def oracle(ctx, broken, hints):
         cases += gen_cases(ctx, "property", ctx.budget(20, 100), ctx.budget(15, 120), ctx.budget(20, 30),
                            ctx.budget(20, 30), exhaustive_bases=ctx.budget(1, 3))
     else:
-        cases += gen_cases(ctx, "property", ctx.budget(6, 60), ctx.budget(6, 40), ctx.budget(8, 30),
-                           ctx.budget(8, 40), exhaustive_bases=ctx.budget(0, 1))
+        cases += gen_cases(ctx, "property", ctx.budget(6, 40), ctx.budget(6, 25), ctx.budget(8, 25),
+                           ctx.budget(8, 30), exhaustive_bases=ctx.budget(0, 1), exhaustive_pairs=300)
     failures = []
     seen = set()
     kinds = {}
@@ -1231,6 +1304,10 @@ def oracle(ctx, broken, hints):
                 if not any(matches_known(e, fl) for e in known):
                     fresh += 1
     failures.sort(key=lambda fl: len(core.canon(fl.input)))
+    news = [fl for fl in failures if not any(matches_known(e, fl) for e in known)]
+    if news:
+        small = shrink(ctx, news[0], known)
+        failures = [small] + [fl for fl in failures if fl is not small]
     return {"evaluations": evaluated, "failures": failures, "cases": kinds}
 
 
